@@ -1,6 +1,6 @@
 (* C02 — progress: accepted programs run to completion, nothing is left stuck.
-   PROVED (no axioms; hypotheses are explicit premises), linear connective fragment
-   {1, ⊗, ⊸, ⊕, &, ↓, ↑, cut, id, call, print}, asynchronous mode:
+   PROVED (no axioms; hypotheses are explicit premises), connectives with weakening
+   {1, ⊗, ⊸, ⊕, &, ↓, ↑, cut, id, call, print, drop + droppable forwards + GC requests}:
      * C02_progress_partial : in a typed (spec/RtTyping.v), Topo (spec/Topo.v), quiescent
        configuration (1) every remaining process is blocked in a receive on its OWN provider
        channel, of negative type, with an empty open buffer (poised: nobody is stuck sending, nobody
@@ -16,8 +16,11 @@
        buffered): every survivor is blocked on its OWN provider channel, receiving (poised) or
        sending a positive message (offering a result nobody takes); if each of these channels has a
        client, nobody survives.
-   NOT proved: `progress_statement` for all forms (drop / split / DUP / GC: reclamation of dropped
-   sub-trees), and the non-polarized mode: covered by the correspondence run only. *)
+     Dropping a channel is covered: the droppable forward / GC request reach the provider, which
+     propagates the request to everything it depends on and ends — by (1) no such forward and no
+     reclaimed provider is left at quiescence (C02_example_runs: 0 processes left after `drop s`).
+   NOT proved: contraction (split / DUP / several provider names) and the non-polarized mode:
+   covered by the correspondence run only. *)
 From stdpp Require Import gmap strings.
 Require Import Grits.Base Grits.ModeDefs Grits.Modes Grits.STypes Grits.Forms Grits.Subst Grits.TcDeps Grits.Expand
                Grits.Tc Grits.TcTop Grits.Runtime Grits.spec.RtTyping Grits.spec.Topo
@@ -84,7 +87,9 @@ Proof. exact progress_sync_run_partial. Qed.
 Example C02_example_runs :
   run_example Async (fun _ _ => 0%nat) = Some (0%nat, ["served"; "done"], true) /\
   run_example Async (fun _ n => pred n) = Some (0%nat, ["served"; "done"], true) /\
-  run_example Sync (fun _ _ => 0%nat) = Some (1%nat, ["served"; "done"], true).
+  run_example Sync (fun _ _ => 0%nat) = Some (1%nat, ["served"; "done"], true) /\
+  run_example_drop Async (fun _ _ => 0%nat) = Some (0%nat, ["dropped"], true) /\
+  run_example_drop Async (fun _ n => pred n) = Some (0%nat, ["dropped"], true).
 Proof. repeat split; vm_compute; reflexivity. Qed.
 
 Print Assumptions C02_progress_partial.
